@@ -223,9 +223,11 @@ class RainfallClimateNetwork(ClimateNetwork):
         onelist = rainfall.reshape(m).copy()
         onelist.sort()
 
-        downlimit = m * event_threshold[0] // 1
+        #  (positions in the sorted list: integers, also for quantiles given
+        #  as floats)
+        downlimit = int(m * event_threshold[0] // 1)
 
-        uplimit = m * event_threshold[1] // 1
+        uplimit = int(m * event_threshold[1] // 1)
 
         down_mask = rainfall >= onelist[downlimit]
 
